@@ -19,6 +19,10 @@ Two families of bounded, completely enumerated sub-spaces (DESIGN section 4, C06
     reading on a time axis whose origin is the first note onset: notes exactly, control / program
     changes through the value in effect at every time >= 0 (mc/c06_silence.py), with events placed
     before, at and after the first onset.
+(d) saving a loaded performance ("resave-*"): the performance obtained in (a) or (b) - whose events carry
+    the tick fields of the file they came from and whose parts carry ppq / mpq attributes - is edited
+    (seconds only), saved with a second, independent (ppq, mpq) and loaded; the expectation is computed
+    from the seconds of the saved parts rounded to the ticks of the second configuration.
 """
 import itertools
 import os
@@ -33,8 +37,9 @@ from mc import c06_silence as SIL
 PID = "C06"
 RULE = (
     "every case is one (performance spec, export/import configuration) or one (abstract MIDI file, "
-    "import configuration); cases are distinct by construction inside a sub-space; non-trivial = at "
-    "least one note was expected and the file was written and loaded"
+    "import configuration), for resave-* followed by (edit, second export configuration); cases are "
+    "distinct by construction inside a sub-space; non-trivial = at least one note was expected and the "
+    "file was written and loaded"
 )
 ASSUMPTIONS = [
     "mido (MIDI file format layer) is trusted; the reference reader works on absolute-tick event lists",
@@ -55,6 +60,11 @@ ASSUMPTIONS = [
     "with merging, notes of equal pitch and channel coming from different tracks are separated by at "
     "least one tick (order inside a tick of a merged track is mido's)",
     "before the first set_tempo the tempo is default_bpm (120 unless given)",
+    "resave-*: the times of a performance are the seconds it holds (note_on, note_off, time) at the moment "
+    "it is saved; note_on_tick / note_off_tick / time_tick fields left by the importer and the ppq / mpq "
+    "attributes of a PerformedPart are not times of the performance (the export resolution is the ppq / "
+    "mpq chosen on export); the tracks of the written file are the track numbers in use in ascending "
+    "order; the second round is only run when the first one agreed with its own expectation",
     "silence-*: load_performance(..., first_note_at_zero=True) is the loaded content on a time axis whose "
     "origin is the first note onset: notes are compared exactly (time - origin); control and program "
     "changes are compared through the value in effect at every time >= 0 per (track, channel, number) "
@@ -556,17 +566,17 @@ def _load(case, arg, res, stage="rt", merge=None):
     return perf
 
 
-def eval_rt(case):
+def _rt_stage1(case, res):
+    """Build the performance of the spec, save it, compare the written file, load it, compare the loaded
+    performance.  Returns None (res.outcome set) or (perf, exp, obs, good, file_ok, clock)."""
     from partitura.performance import Performance
 
-    res = CaseResult(states=1, transitions=0, traces=1)
     ppq, mpq = case["cfg"]
-    nnotes = sum(len(p.get("notes", [])) for p in case["parts"])
     res.nontrivial = False
     ok, parts = guarded(res, "rt-construct", build_parts, case)
     if not ok:
         res.outcome = "construct-exception"
-        return res
+        return None
     res.transitions += len(parts)
     trackmap = {}
     for pi, p in enumerate(case["parts"]):
@@ -578,12 +588,12 @@ def eval_rt(case):
         ok, obj = guarded(res, "rt-construct", Performance, parts)
         if not ok:
             res.outcome = "construct-exception"
-            return res
+            return None
         res.transitions += 1
         mp = sanitize_map(res, case, obj)
         if mp is None:
             res.outcome = "sanitize-mismatch"
-            return res
+            return None
         for k in trackmap:
             trackmap[k] = mp.get(k, trackmap[k])
     elif case["inp"] == "ppart":
@@ -601,7 +611,7 @@ def eval_rt(case):
         res.transitions += 1
         if saved is None:
             res.outcome = "save-failed"
-            return res
+            return None
         mf, arg = saved
         # --- the written file, read by the reference reader
         exp_file, groups_file = expected_rt(case, trackmap, merged=bool(case["msave"]))
@@ -618,16 +628,26 @@ def eval_rt(case):
             _unlink(tmp_path("c06.mid"))
     if perf is None:
         res.outcome = "load-failed"
-        return res
+        return None
     merged = bool(case["msave"] or case["mload"])
     exp, groups = expected_rt(case, trackmap, merged=merged)
     ok, obs = guarded(res, "rt-loaded-structure", observe, perf)
     if not ok:
         res.outcome = "loaded-structure"
-        return res
+        return None
     where = "load_performance_midi" if file_ok else "save_performance_midi"
     good = compare(res, "rt", exp, obs, clock, groups, where=where)
     good = check_ids(res, "rt", perf) and good
+    return perf, exp, obs, good, file_ok, clock
+
+
+def eval_rt(case):
+    res = CaseResult(states=1, transitions=0, traces=1)
+    nnotes = sum(len(p.get("notes", [])) for p in case["parts"])
+    st = _rt_stage1(case, res)
+    if st is None:
+        return res
+    perf, exp, obs, good, file_ok, clock = st
     res.nontrivial = nnotes > 0
     # --- second generation: the loaded performance is itself a performance
     if good and file_ok and case.get("gen2", True):
@@ -654,8 +674,9 @@ def eval_rt(case):
 # (b) raw files
 
 
-def eval_raw(case):
-    res = CaseResult(states=1, transitions=0, traces=1)
+def _raw_stage1(case, res):
+    """Write the abstract file, load it, compare with the reference reader.  Returns None (res.outcome set)
+    or (perf, exp, obs, good, number of acceptable tempo readings)."""
     ppq = case["ppq"]
     tracks = case["tracks"]
     bpm = case.get("bpm", 120)
@@ -675,14 +696,14 @@ def eval_raw(case):
             _unlink(arg)
     if perf is None:
         res.outcome = "load-failed"
-        return res
+        return None
     parts = M.ref_read(tracks, merge=bool(case["merge"]))
     exp = M.flatten(parts)
     all_tracks_kept = (not case["merge"]) and len(parts) == len(tracks)
     ok, obs = guarded(res, "raw-loaded-structure", observe, perf)
     if not ok:
         res.outcome = "loaded-structure"
-        return res
+        return None
     if not (all_tracks_kept or case["merge"]):
         # a file with a track that yields no part: track numbers are not claimed
         for cat in exp:
@@ -696,12 +717,178 @@ def eval_raw(case):
             for r in exp[cat]:
                 r["track"] = 0
     clock_list = M.clocks(tracks, ppq, default_mpq)
-    compare(res, "raw", exp, obs, clock_list, (), where="load_performance_midi")
-    check_ids(res, "raw", perf)
+    good = compare(res, "raw", exp, obs, clock_list, (), where="load_performance_midi")
+    good = check_ids(res, "raw", perf) and good
+    return perf, exp, obs, good, len(clock_list)
+
+
+def eval_raw(case):
+    res = CaseResult(states=1, transitions=0, traces=1)
+    st = _raw_stage1(case, res)
+    if st is None:
+        return res
+    perf, exp, obs, good, nread = st
     res.nontrivial = len(exp["notes"]) > 0
-    ntempo = len(M.tempo_events(tracks))
+    ntempo = len(M.tempo_events(case["tracks"]))
     res.outcome = "notes=%d parts=%d tempo=%d readings=%d %s" % (
-        len(exp["notes"]), len(perf.performedparts), ntempo, len(clock_list), "ok" if not res.violations else "bad")
+        len(exp["notes"]), len(perf.performedparts), ntempo, nread, "ok" if not res.violations else "bad")
+    return res
+
+
+# ---------------------------------------------------------------------------------------------
+# (d) a loaded performance is saved again ("resave-*")
+
+
+class _Parts(object):
+    def __init__(self, parts):
+        self.performedparts = list(parts)
+
+
+def _edit_fn(edit):
+    """edit: ["none"] | ["shift", seconds] | ["scale", factor]  (monotone maps of the time axis)"""
+    if edit[0] == "shift":
+        return lambda t: t + edit[1]
+    if edit[0] == "scale":
+        return lambda t: t * edit[1]
+    return None
+
+
+def apply_edit(perf, edit, attrs, cfg2):
+    """Edit the *seconds* of every event of a loaded performance through the public containers
+    (PerformedNote item assignment, the event dictionaries); optionally set the ppq / mpq attributes of the
+    parts to the export configuration.  Tick fields left by the importer are not touched."""
+    f = _edit_fn(edit)
+    n_ops = 0
+    for pp in perf.performedparts:
+        if f is not None:
+            for n in pp.notes:
+                on, off = f(n["note_on"]), f(n["note_off"])
+                if off >= n["note_on"]:
+                    n["note_off"] = off
+                    n["note_on"] = on
+                else:
+                    n["note_on"] = on
+                    n["note_off"] = off
+                n_ops += 2
+            for lst in (pp.controls, pp.programs, pp.key_signatures, pp.time_signatures, pp.meta_other):
+                for c in lst:
+                    c["time"] = f(c["time"])
+                    n_ops += 1
+        if attrs == "export":
+            pp.ppq, pp.mpq = cfg2
+            n_ops += 1
+    return n_ops
+
+
+def expected_resave(parts, cfg2):
+    """parts: the performed parts that are saved (after the edit).  The expectation is computed from their
+    seconds: every time goes to its nearest tick of cfg2; the tracks of the file are the track numbers in
+    use in ascending order.  Returns (exp, groups)."""
+    ppq, mpq = cfg2
+    per_part = [observe(_Parts([pp])) for pp in parts]
+    used = sorted(set(int(r["track"]) for o in per_part for cat in ("notes", "controls", "programs") for r in o[cat]))
+    rank = dict((t, i) for i, t in enumerate(used))
+
+    def opts(t):
+        return M.tick_options(float(t), ppq, mpq)
+
+    exp = dict((cat, []) for cat in CATS)
+    groups = []
+    for o in per_part:
+        for cat, (st, tm) in CATS.items():
+            for r in o[cat]:
+                tr = int(r["track"])
+                if tr not in rank:
+                    raise ValueError("generator: %s event on track %r that carries no note, control or program" % (cat, tr))
+                e = dict((k, r[k]) for k in st)
+                e["track"] = rank[tr]
+                for k in tm:
+                    e[k] = opts(r[k])
+                exp[cat].append(e)
+        if not o["programs"]:
+            first = [max(opts(n["on"])) for n in o["notes"]] + [max(opts(c["t"])) for c in o["controls"]]
+            pairs = sorted(set((int(r["ch"]), rank[int(r["track"])]) for cat in ("notes", "controls") for r in o[cat]))
+            if pairs:
+                groups.append([dict(prog=0, ch=c, track=t, t=(), tmax=min(first)) for c, t in pairs])
+    return exp, groups
+
+
+def eval_resave(case):
+    """stage 1: the performance of the spec is saved and loaded / the abstract file is loaded (compared as in
+    rt-* / raw-*); then the loaded performance is edited (seconds only), saved with the second configuration
+    and loaded; the result is compared with the seconds of the saved performance rounded to ticks."""
+    res = CaseResult(states=1, transitions=0, traces=1)
+    res.nontrivial = False
+    c1 = case["first"]
+    st = _rt_stage1(c1, res) if c1["kind"] == "rt" else _raw_stage1(c1, res)
+    if st is None:
+        res.outcome = "resave stage1: %s" % res.outcome
+        return res
+    perf, good = st[0], st[3]
+    if c1["kind"] == "rt":
+        good = good and st[4]
+    if not good:
+        res.outcome = "resave stage1: bad"
+        return res
+    cfg2 = tuple(case["cfg2"])
+    ok, nops = guarded(res, "resave-edit", apply_edit, perf, case["edit"], case["attrs"], cfg2)
+    if not ok:
+        res.outcome = "resave edit-exception"
+        return res
+    res.transitions += nops
+    if case["inp2"] == "perf":
+        obj, parts = perf, list(perf.performedparts)
+    elif case["inp2"] == "list":
+        obj = parts = list(perf.performedparts)
+    else:
+        obj = perf.performedparts[0]
+        parts = [obj]
+    ok, eg = guarded(res, "resave-loaded-structure", expected_resave, parts, cfg2)
+    if not ok:
+        res.outcome = "resave loaded-structure"
+        return res
+    exp2, groups2 = eg
+    c2 = dict(kind="rt", cfg=list(cfg2), io=case["io2"], msave=0, mload=0, loader=case["loader2"],
+              defaults=bool(case.get("defaults2")))
+    try:
+        saved = _save(c2, obj, res, stage="resave")
+        res.transitions += 1
+        if saved is None:
+            res.outcome = "resave save-failed"
+            return res
+        mf, arg = saved
+        clock2 = [lambda k: M.tick_seconds(k, cfg2[0], cfg2[1])]
+        if mf.ticks_per_beat != cfg2[0]:
+            res.fail("resave-file-ppq", expected=cfg2[0], observed=mf.ticks_per_beat, where="save_performance_midi")
+        file_ok = compare(res, "resave-file", exp2, observe_file(abstract_of_mido(mf), cfg2[0]), clock2, groups2,
+                          where="save_performance_midi")
+        perf2 = _load(c2, arg, res, stage="resave")
+        res.transitions += 1
+    finally:
+        if case["io2"] != "object":
+            _unlink(tmp_path("c06.mid"))
+    if perf2 is None:
+        res.outcome = "resave load-failed"
+        return res
+    ok, obs2 = guarded(res, "resave-loaded-structure", observe, perf2)
+    if not ok:
+        res.outcome = "resave loaded-structure"
+        return res
+    compare(res, "resave", exp2, obs2, clock2, groups2,
+            where="load_performance_midi" if file_ok else "save_performance_midi")
+    check_ids(res, "resave", perf2)
+    res.traces += 1
+    res.nontrivial = len(exp2["notes"]) > 0
+    stale = 0
+    for pp in parts:
+        for n in pp.notes:
+            k = n["note_on_tick"]
+            if k is not None and k not in M.tick_options(float(n["note_on"]), cfg2[0], cfg2[1]):
+                stale += 1
+    same_attr = all((pp.ppq, pp.mpq) == cfg2 for pp in parts)
+    res.outcome = "resave %s edit=%s parts=%d stored-ticks=%s part-ppq/mpq=%s %s" % (
+        c1["kind"], case["edit"][0], len(parts), "differ" if stale else "agree",
+        "export" if same_attr else "other", "ok" if not res.violations else "bad")
     return res
 
 
@@ -712,6 +899,8 @@ def eval_case(case):
         return eval_unit(case)
     if case["kind"] == "sil":
         return eval_silence(case)
+    if case["kind"] == "resave":
+        return eval_resave(case)
     return eval_raw(case)
 
 
@@ -1618,6 +1807,98 @@ def gen_silence_rt(quick, block):
                     yield c
 
 
+# ---------------------------------------------------------------------------------------------
+# (d) generators: a loaded performance saved again
+
+RESAVE_EDITS = [["none"], ["shift", 0.25], ["shift", 0.1003], ["scale", 2.0], ["scale", 0.5], ["scale", 1.2]]
+RESAVE_ATTRS = ["loaded", "export"]
+# (layout name, (pitch, channel, track) of note A, of note B)
+RESAVE_LAYOUTS = [
+    ("one-track-same-pitch", (60, 0, 0), (60, 0, 0)),
+    ("one-track", (60, 0, 0), (61, 1, 0)),
+    ("two-tracks", (60, 0, 0), (61, 1, 1)),
+    ("two-tracks-same-pitch", (60, 0, 0), (60, 0, 1)),
+]
+RESAVE_CORE = [("one-track", "disjoint"), ("two-tracks", "abut-by-rounding")]
+
+
+def _resave(first, cfg2, edit, attrs, i):
+    io2 = IOS[i % 3]
+    return dict(kind="resave", first=first, cfg2=list(cfg2), edit=edit, attrs=attrs,
+                inp2=["perf", "list", "ppart"][(i // 3) % 3], io2=io2,
+                loader2="lp" if (i % 5 == 0 and io2 != "object") else "lpm",
+                defaults2=(tuple(cfg2) == (480, 500000) and i % 2 == 0))
+
+
+def gen_resave_rt(block):
+    """first export configuration x second export configuration x edit x part attributes x content"""
+    i = 0
+    for cfg1 in CONFIGS:
+        for cfg2 in CONFIGS:
+            for edit in RESAVE_EDITS:
+                for attrs in RESAVE_ATTRS:
+                    for lname, da, db in RESAVE_LAYOUTS:
+                        for pname, pat in TWO_PATTERNS:
+                            i += 1
+                            if block is not None and (lname, pname) not in RESAVE_CORE and \
+                                    block_of(["resave-rt", cfg1, cfg2, edit, attrs, lname, pname], block[1]) != block[0]:
+                                continue
+                            ta = _times(cfg1, pat)
+                            na = [da[0], ta[0], ta[1], [1, 64, 127][i % 3], da[1], da[2]]
+                            nb = [db[0], ta[2], ta[3], [64, 127, 1][i % 3], db[1], db[2]]
+                            part = dict(notes=[na, nb], controls=[[ta[1], 64 if da[0] != db[0] else 67, (i * 37) % 128, da[1], da[2]]])
+                            if i % 2:
+                                part["programs"] = [[0.0, i % 128, db[1], db[2]]]
+                            if i % 4 == 0:
+                                part["keysigs"] = [[ta[0], [0, -3, 2, 7][(i // 4) % 4], [None, "minor", "major"][(i // 4) % 3], 0]]
+                            if i % 4 == 1:
+                                part["timesigs"] = [[ta[2], [3, 4, 6][(i // 4) % 3], [8, 4, 2][(i // 4) % 3], 0]]
+                            if i % 4 == 2:
+                                part["metas"] = [[ta[3], "text", {"text": "t%d" % (i % 7)}, 0]]
+                            io = IOS[(i // 2) % 3]
+                            first = _rt([part], cfg1, ["perf", "ppart", "list"][i % 3], MERGES[(i // 3) % 4], io,
+                                        "lp" if (i % 7 == 0 and io != "object") else "lpm", pattern=pname, layout=lname,
+                                        defaults=(cfg1 == (480, 500000) and i % 3 == 1))
+                            if valid_rt(first):
+                                yield _resave(first, cfg2, edit, attrs, i)
+
+
+def _strip_meta(content):
+    return [[ev for ev in tr if ev[1] not in ("ks", "ts", "meta")] for tr in content]
+
+
+def gen_resave_raw(layouts, ticks, values, maxlen, block=None, full_len=1):
+    """abstract files with tempo changes, loaded, then saved again.  Sequences of <= full_len tempo events:
+    x every second configuration x part attributes (edit cycled); longer ones: second configuration in
+    {(file ppq, 500000), (1000, 333333)}, edit and attributes cycled."""
+    i = 0
+    for layout in layouts:
+        for n, seq in tempo_sequences(len(RAW_CONTENT[layout]), ticks, values, maxlen):
+            for merge in (0, 1):
+                if merge and layout == "three":
+                    continue  # equal pitch and channel overlap across its tracks
+                content = RAW_CONTENT[layout]
+                if not merge and layout in ("conductor", "three"):
+                    # the importer renumbers the tracks of notes, controls and programs of the parts it returns,
+                    # not those of signatures / meta events (not claimed, see raw-tempo): none are generated
+                    content = _strip_meta(content)
+                for ppq in (480, 96):
+                    if n <= full_len:
+                        seconds = [(cfg2, attrs) for cfg2 in CONFIGS for attrs in RESAVE_ATTRS]
+                    else:
+                        seconds = [((ppq, 500000), None), ((1000, 333333), None)]
+                    for cfg2, attrs in seconds:
+                        i += 1
+                        bpm = 100 if i % 3 == 0 else 120
+                        first = dict(kind="raw", ppq=ppq, tracks=_insert_tempo(content, seq, after=i % 2), merge=merge,
+                                     bpm=bpm, io=["object", "path"][i % 2], loader="lp" if i % 10 == 1 else "lpm",
+                                     defaults=(bpm == 120 and i % 4 == 0), layout=layout)
+                        c = _resave(first, cfg2, RESAVE_EDITS[i % len(RESAVE_EDITS)], attrs or RESAVE_ATTRS[(i // 6) % 2], i)
+                        if n > full_len and block is not None and block_of(c, block[1]) != block[0]:
+                            continue
+                        yield c
+
+
 def spaces(tier, seed):
     quick = tier == "quick"
     sp = []
@@ -1702,8 +1983,34 @@ def spaces(tier, seed):
                     "values%s x {one track; two tracks merged on save; two tracks merged on load}; 9 (ppq,mpq), "
                     "input kind and output kind cycled; no tick ties" % (
                         " (pairs: block %d of %d)" % (seed % BR, BR) if quick else "")))
+    BV = 8
+    sp.append(Space("resave-rt", lambda: gen_resave_rt((seed % BV, BV) if quick else None), True,
+                    "a performance is saved with (ppq1, mpq1), loaded, edited, saved with (ppq2, mpq2) and loaded; the "
+                    "expectation of the second file / load is computed from the seconds (note_on, note_off, time) of the "
+                    "saved parts, whatever tick fields and ppq / mpq attributes they carry: all 9 x 9 pairs of "
+                    "configurations x edit of every time after the first load {none, +0.25 s, +0.1003 s, x2, x0.5, x1.2} "
+                    "(seconds only, through PerformedNote item assignment and the event dictionaries) x part attributes "
+                    "ppq / mpq {as loaded, set to the second configuration} x content: 2 notes + 1 control in 4 layouts "
+                    "(one track equal pitch, one track, two tracks, two tracks equal pitch) x the 10 interval patterns "
+                    "of rt-two-notes%s; program / signature / text event, first input kind and merge flags, second input "
+                    "kind {Performance, list of its parts, its first part}, default arguments, output kind and loader "
+                    "cycled; no merging in the second round" % (
+                        " (2 core contents complete, block %d of %d of the others)" % (seed % BV, BV) if quick else "")))
+    BW = 4
+    sp.append(Space("resave-raw",
+                    lambda: gen_resave_raw(["one", "two", "conductor"] + ([] if quick else ["three"]), [0, 50, 100, 200],
+                                           [500000, 250000, 600000], 2, (seed % BW, BW) if quick else None),
+                    True,
+                    "abstract files of raw-tempo (1 track, 2 tracks, conductor+1%s; signatures / meta events only where the "
+                    "importer keeps the track number) with every sequence of <=2 set_tempo events over (track, tick in "
+                    "{0,50,100,200}, mpq in {500000,250000,600000}) x merge on load x ppq{480,96}, loaded, edited, saved with "
+                    "(ppq2, mpq2) and loaded; expectation as in resave-rt: <=1 tempo event: all 9 second configurations x "
+                    "part attributes {as loaded, set to the second configuration}, edit cycled; 2 tempo events%s: second "
+                    "configuration in {(file ppq, 500000), (1000, 333333)}, edit and attributes cycled; default_bpm "
+                    "{120, 100}, second input kind, default arguments, output kind and loader cycled" % (
+                        "" if quick else ", 3 tracks", " (block %d of %d)" % (seed % BW, BW) if quick else "")))
     # files first, then the round trips from small to large (the runner keeps the first 20000 violations)
-    order = ["unit-time", "raw-keys", "raw-pairing", "raw-tempo", "silence-raw", "silence-rt", "rt-defaults", "rt-single-track", "rt-signatures", "rt-ranges",
+    order = ["unit-time", "raw-keys", "raw-pairing", "raw-tempo", "resave-raw", "resave-rt", "silence-raw", "silence-rt", "rt-defaults", "rt-single-track", "rt-signatures", "rt-ranges",
              "rt-multi-part", "rt-multi-part-3", "rt-two-notes", "rt-events", "rt-three-notes", "rt-one-note"]
     sp.sort(key=lambda s: order.index(s.name))
     return sp
